@@ -141,7 +141,7 @@ func NewServer() *Server {
 	s := &Server{KS: NewKeyspace(), conns: map[int]*connState{}, RestoreRegistry: map[string]*Value{}, RedisVer: "7.2.0",
 		RunID: "aaaaaaaaaaaaaaaaaaaaaaaaaaaaaaaaaaaaaaaa"}
 	s.NowMs = func() int64 { return time.Now().UnixNano() / 1e6 }
-	ln, err := net.Listen("tcp", "127.0.0.1:0")
+	ln, err := Listen()
 	if err != nil {
 		panic(err)
 	}
